@@ -22,6 +22,7 @@ from pyvc.prop import Property, Bounded, Lemma
 from . import flags as FL, selected as SELM, dictmbx as D, session as SES, C04 as C04M, state as ST
 from .dictmbx import MBX, Msg, F, FLAG_RECENT
 from harness.e2e_recent import bounded_recent
+from harness.e2e_recent_md import bounded_recent_maildir
 
 REG = dict(SES.REG)
 REG.update(D.BASE_REGISTRY)
@@ -171,7 +172,12 @@ PROPERTY = Property(
                      'selected and from an examined source with a pending-recent message, STORE +-\\Recent}: all '
                      'histories of length 3 (quick) / 4 (thorough) with 2 sessions, plus seeded histories of length 5-6 '
                      'with 3 sessions; after every step every selected session is polled (NOOP + FETCH 1:* (UID FLAGS))',
-                     bounded_recent('C17'), decisive=False)],
+                     bounded_recent('C17'), decisive=False),
+             Bounded('the same statement on the maildir backend, wire-only (real MaildirBackend on a temporary directory)',
+                     'deliveries (3 flag lists) into a mailbox with 0..2 of {SELECT, EXAMINE, CLOSE, own APPEND} sessions: 29 '
+                     'fixed histories on the ++ layout (quick), plus 300 seeded histories of length 4-9 and the fixed ones on '
+                     'the fs layout (thorough)',
+                     bounded_recent_maildir('C17'), decisive=False)],
     level='proof', design_ref='6 C17',
     trusted_base=['abstract backend in the BaseSession contracts', 'NoYieldUnderLock (C04) for the atomicity of claim_recent',
                   'exactly-once over whole histories is the composition of these per-function facts (paper) and the '
